@@ -1100,6 +1100,20 @@ func C20(p *Prog, r *Run) {
 			if !ok || !okC {
 				return false
 			}
+			if _, isLenX := c19IsBuiltinCall(x, "len"); !isLenX {
+				// `bound <op> len(e.Trials)`: read it the other way round
+				x, y = y, x
+				switch op {
+				case token.LSS:
+					op = token.GTR
+				case token.GTR:
+					op = token.LSS
+				case token.LEQ:
+					op = token.GEQ
+				case token.GEQ:
+					op = token.LEQ
+				}
+			}
 			lc, isLen := c19IsBuiltinCall(x, "len")
 			if !isLen || len(lc.Call.Args) != 1 || !isHolderLoad(lc.Call.Args[0]) || CanonTerm(tm.Of(y)) != CanonTerm(bound) {
 				return false
